@@ -296,6 +296,42 @@ func successRule(w *World, r *Report, rule string) {
 		}
 		if n == 0 {
 			r.Bad(rule, funcName(fn)+": remains reduced after paying", w.Pos(fn.Pos()), "coins are paid out but the recorded remainder is never reduced (they would be paid again)")
+		} else {
+			// the converse: coins that left the main account are always booked out - from the success edge of the bank
+			// operation no path reaches the end of the pay-out function without the store of the remainder (an early
+			// return slipped between the transfer and the book-keeping leaves the coins owed a second time)
+			var storeBlocks []*ssa.BasicBlock
+			for _, sb := range w.storesBelow(fn, "State", 2, nil) {
+				if sb.FS.Field == "Remains" {
+					storeBlocks = append(storeBlocks, sb.Top().Block())
+				}
+			}
+			isStore := func(b *ssa.BasicBlock) bool {
+				for _, x := range storeBlocks {
+					if x == b {
+						return true
+					}
+				}
+				return false
+			}
+			skipped := ""
+			for _, e := range NilEdges(fn, errValues(fn, siteCall(xfer)), true) {
+				seen := map[*ssa.BasicBlock]bool{}
+				stack := []*ssa.BasicBlock{e.To()}
+				for len(stack) > 0 {
+					b := stack[len(stack)-1]
+					stack = stack[:len(stack)-1]
+					if seen[b] || isStore(b) {
+						continue
+					}
+					seen[b] = true
+					if _, isRet := b.Instrs[len(b.Instrs)-1].(*ssa.Return); isRet {
+						skipped = w.Pos(lastPos(b))
+					}
+					stack = append(stack, b.Succs...)
+				}
+			}
+			r.Check(skipped == "", rule, funcName(fn)+": a successful pay-out is always booked out of the state", w.Pos(xfer.Instr.Pos()), "from the success edge of the bank operation every path to the end of the function passes the store of the remainder", "after a successful transfer the function can return without reducing the state ("+skipped+"): the coins have left the main account but are still recorded as owed and will be paid again")
 		}
 	}
 }
@@ -325,6 +361,7 @@ func checkC03(w *World, r *Report) {
 	r.Rule("C03.sweep", "P5", "= C14.sweep", 7)
 	r.Rule("C03.wrapper", "P4,P6", "= C14.wrapper: bank wrappers of the distributor pass amount, accounts and result through unchanged", 4)
 	r.Rule("C03.persist", "P5", "in the end-of-block loop every element of the state list reaches SetState on every path", 3)
+	r.Rule("C03.loopvar", "P4", "the module declares a Go version with one variable per loop: no address of such a variable (or of a field of it) and no function literal over it outlives the iteration in which it was taken (stored, put into a map, flowing out of the loop, deferred, handed to a function that stores it) - otherwise the matching element silently becomes the last element; positive and negative controls", 6)
 	r.Rule("C03.order", "P4,P6", "source-order independence: the Main source must see what earlier sources of the same sub-distributor swept into the main account", 1)
 	if !ro.checkFloors(r) {
 		return
@@ -481,6 +518,7 @@ func checkC03(w *World, r *Report) {
 	conserveRule(w, r, "C03.conserve", a)
 	persistRule(w, r, "C03.persist", a)
 	orderRule(w, r, "C03.order", a)
+	loopVarRule(w, r, "C03.loopvar", "cfedistributor")
 }
 
 func sliceOnPath(o *Origin) bool {
